@@ -2020,13 +2020,23 @@ def _splice_starred_displays(mods: dict[str, Module], log: list[str]) -> None:
                         new_args.append(a)
                 node.args = new_args
                 n += 1
+            if any(k.arg is None and isinstance(k.value, ast.Dict) and k.value.keys and all(isinstance(x, ast.Constant) and isinstance(x.value, str) and x.value.isidentifier() for x in k.value.keys)
+                   for k in node.keywords):
+                new_kw: list[ast.keyword] = []
+                for k in node.keywords:
+                    if k.arg is None and isinstance(k.value, ast.Dict) and k.value.keys and all(isinstance(x, ast.Constant) and isinstance(x.value, str) and x.value.isidentifier() for x in k.value.keys):
+                        new_kw.extend(ast.keyword(arg=x.value, value=v) for x, v in zip(k.value.keys, k.value.values))
+                    else:
+                        new_kw.append(k)
+                node.keywords = new_kw
+                n += 1
             return node
     for mod in mods.values():
         for q, _, fn in _functions_of(mod):
             T().visit(fn)
             ast.fix_missing_locations(fn)
     if n:
-        log.append(f"{n} starred tuple display(s) spliced into their call")
+        log.append(f"{n} starred display(s) / `**` dict display(s) spliced into their call")
 
 
 def _exitstack_to_try(mods: dict[str, Module], log: list[str]) -> None:
